@@ -49,6 +49,21 @@ class PostgreSQLQueryBuilder(QueryBuilder):
         return newone
 
     @builder
+    def replace_table(self, current_table, new_table) -> "Self":
+        """
+        Replaces all occurrences of the specified table with the new table, including the
+        RETURNING and DISTINCT ON terms.
+        """
+        newone = super().replace_table(current_table, new_table)
+        newone._returns = [
+            term.replace_table(current_table, new_table) for term in newone._returns
+        ]
+        newone._distinct_on = [
+            term.replace_table(current_table, new_table) for term in newone._distinct_on
+        ]
+        return newone
+
+    @builder
     def distinct_on(self, *fields: str | Term) -> "PostgreSQLQueryBuilder":  # type:ignore[return]
         for field in fields:
             if isinstance(field, str):
